@@ -1555,6 +1555,17 @@ return 1;""",
             allocate_result_blk = self.add_stmt_capsule(ast, result_blk, fmt_result)
             # Result pre_call is added once before all default argument cases.
             if allocate_result_blk and allocate_result_blk.pre_call:
+                if not found_default and post_declare_code:
+                    # The result pre_call contains 'goto fail'.
+                    # Declare the arguments' C++ variables first to avoid error:
+                    # jump to label 'fail' crosses initialization of ...
+                    if options.debug:
+                        PY_code.extend(["", "// post_declare"])
+                    PY_code.extend(post_declare_code)
+                    default_calls = [
+                        (npyargs, 0, post_parse_len, pre_call_len, call_list)
+                        for npyargs, post_declare_len, post_parse_len,
+                        pre_call_len, call_list in default_calls]
                 PY_code.extend(["", "// result pre_call"])
                 util.append_format_cmds(PY_code, allocate_result_blk, "pre_call", fmt_result)
                 need_blank0 = False
